@@ -858,6 +858,12 @@ func main() {
 	c := &checker{s: s, r: r}
 
 	if r.Replay != "" {
+		var rr rowsReplay
+		r.LoadReplay(&rr)
+		if rr.Part == "S" {
+			rowsPart(r, l)
+			finish()
+		}
 		var cs caseT
 		r.LoadReplay(&cs)
 		c.verbose, c.only = true, &cs
@@ -892,6 +898,9 @@ func main() {
 		}
 		finish()
 	}
+
+	// ---- part S: sessions through one chain -----------------------------------------------
+	rowsPart(r, l)
 
 	// ---- part A -------------------------------------------------------------------------
 	var small []int
